@@ -272,6 +272,15 @@ theorem resample_integer_position (xs : List K) (zero : K) (order : Nat) (p : Na
     resValue xs zero order (((p : Int) : K)) = xs.getD p zero := by
   rw [resValue_nat]; simp [extGet]
 
+/-- **C19.res.3b** identity resampling (`old = new`): the generator reproduces its input (all
+but the last `order/2` samples, whose interpolation window would need samples after the end). -/
+theorem resample_identity (xs : List K) (order : Nat) (zero : K) (n : Nat)
+    (ho : 1 ≤ order) (hlen : order / 2 + 1 ≤ xs.length) :
+    ∃ r, resample xs (.num 1) order zero n = .ok r ∧
+      r.1 = (xs.take (xs.length - order / 2)).take n := by
+  obtain ⟨r, h1, h2, _⟩ := resample_num xs 1 order zero n ho hlen zero_le_one
+  exact ⟨r, h1, by rw [h2, resampleSpec_identity]⟩
+
 /-- **C19.res.4** the Waring–Lagrange interpolator on `enumerate(data)` returns `data[i]` at
 node `i` (C07.4 for the nodes `0..p`). -/
 theorem lagrange_interpolates (data : List K) (i : Nat) (hi : i < data.length) :
